@@ -7,7 +7,7 @@ open TopSearch.Moves
 section box
 variable {α : Type} [LT α] [LE α] [DecidableLT α] [DecidableLE α]
 /-- check_bounds, one coordinate -/
-def checkBounds1 (x lo hi : α) : Bool := ((decide (x ≤ lo)) || (decide (hi ≤ x)))
+def checkBounds1 (x lo hi : α) : Bool := (!((decide (x > lo)) && (decide (x < hi))))
 /-- active_bounds, one coordinate: (first returned mask, second returned mask) -/
 def activeBounds1 (x lo hi : α) : Bool × Bool := ((decide (x ≤ lo)), (decide (x ≥ hi)))
 /-- move_to_bounds, one coordinate -/
